@@ -9,7 +9,7 @@
    is the enumeration of the request space (every combination of the listed segment kinds and query kinds). *)
 EXTENDS Integers, Sequences, FiniteSets, TLC, Json
 
-CONSTANTS Pairs,        \* listener pairings, e.g. "h1h1", "h1h2", "h2h1", "h2h2"
+CONSTANTS Pairs,        \* listener/cluster pairings "h1h1", "h2h2" (crossing protocols is done by the transcoder stream filter: a configured rewrite)
           Segs,         \* path segments
           MaxSegs,
           Queries,      \* "-" = no query; "?" = empty query; otherwise the text after '?'
